@@ -11,9 +11,6 @@ Lemma sim_junk_l {A} (x : out A) (m : M A) : junk x -> sim (lift x) m.
 Proof. intros Hj sf sc _. cbn. destruct (m sc). left. exact Hj. Qed.
 Lemma sim_junk_r {A} (x : out A) (m : M A) : junk x -> sim m (lift x).
 Proof. intros Hj sf sc _. cbn. destruct (m sf). right; left. exact Hj. Qed.
-Lemma sim_raise {A} e e' : sim (@lift A (Raise e)) (lift (Raise e')).
-Proof. intros sf sc H. cbn. right; right. split; [intros _; split; [exact I|exact H]|lia]. Qed.
-
 Lemma crel_with_flags of oc a b : crel of oc -> crel (with_flags of a b) (with_flags oc a b).
 Proof.
   intros H. pose proof H as H0. unfold crel in H0. decompose [and] H0. clear H0.
@@ -46,15 +43,11 @@ Lemma fresh_rel of oc d t v : crel of oc ->
 Proof.
   intros Hc. unfold in_fresh.
   pose proof (Ksim of oc d t v Hc no_errs no_errs (conj eq_refl eq_refl)) as Hs.
-  pose proof (Kclean oc d t v no_errs) as Hcl.
+  pose proof (Kclean oc d t v no_errs) as Hcc. pose proof (Kclean of d t v no_errs) as Hcf.
   destruct (tr of d t v no_errs) as [sf' rf]. destruct (tr oc d t v no_errs) as [sc' rc]. cbn [snd].
-  destruct Hs as [Hj|[Hj|[Hclean Hpois]]]; auto.
-  destruct (Nat.eq_dec (nerr sc') (nerr no_errs)) as [E|E].
-  - right; right. apply Hclean. exact E.
-  - assert (Hlt : (nerr no_errs < nerr sc')%nat) by (unfold nerr in *; cbn in *; lia).
-    specialize (Hpois Hlt). destruct rf; cbn in Hpois; try contradiction.
-    destruct rc as [w| | | |]; auto.
-    exfalso. apply E. eapply Hcl. reflexivity.
+  destruct Hs as [Hj|[Hj|[(_ & _ & Hr & _)|(Hdf & Hdc)]]]; auto.
+  destruct rf as [a| | | |]; cbn; auto; [specialize (Hcf _ _ eq_refl); lia|].
+  destruct rc as [b| | | |]; cbn; auto. specialize (Hcc _ _ eq_refl). lia.
 Qed.
 
 Lemma enter_rel of oc depth rt t v : crel of oc ->
@@ -85,7 +78,7 @@ Proof.
     try (destruct He as [[]|[[]|He]]; cbn in He; try contradiction).
   - subst rc. apply IH.
   - rewrite Hpol. destruct (o_invalid_items oc); try apply IH.
-    apply sim_bind; [apply sim_handle_error; exact Hc|apply mono_handle_error|intros; apply IH|intros; apply seq_items_mono].
+    apply sim_bind; [apply sim_handle_error; exact Hc|apply mono_handle_error|apply mono_handle_error|intros; apply IH|intros; apply seq_items_mono|intros; apply seq_items_mono].
 Qed.
 
 
@@ -118,7 +111,7 @@ Lemma tuple_items_sim of oc depth vals : crel of oc -> forall args i acc,
 Proof.
   intros Hc. induction args as [|arg rest IH]; intros i acc; cbn [tuple_items]; [apply sim_ret|].
   destruct (List.length vals <=? i)%nat.
-  { apply sim_bind; [apply sim_handle_error; exact Hc|apply mono_handle_error|intros; apply IH|intros; apply tuple_items_mono]. }
+  { apply sim_bind; [apply sim_handle_error; exact Hc|apply mono_handle_error|apply mono_handle_error|intros; apply IH|intros; apply tuple_items_mono|intros; apply tuple_items_mono]. }
   rewrite (depth_check_crel of oc _ Hc).
   destruct (depth_check oc (new_depth depth (route_idx i))); try apply sim_lift;
   (destruct (nth_error vals i) as [item|]; [|apply sim_lift];
@@ -128,7 +121,7 @@ Proof.
    destruct (enter_tr tr oc depth (route_idx i) arg item) as [ec|[rc|ec| | |]]; enter_cases He;
    [subst rc; apply IH|
     destruct (o_invalid_items oc); try apply IH;
-    (apply sim_bind; [apply sim_handle_error; exact Hc|apply mono_handle_error|intros; apply IH|intros; apply tuple_items_mono])]).
+    (apply sim_bind; [apply sim_handle_error; exact Hc|apply mono_handle_error|apply mono_handle_error|intros; apply IH|intros; apply tuple_items_mono|intros; apply tuple_items_mono])]).
 Qed.
 
 Lemma tuple_exceed_mono o : forall extra i, mono (tuple_exceed o i extra).
@@ -136,7 +129,7 @@ Proof. induction extra as [|x r IH]; intros i; cbn [tuple_exceed]; [apply mono_r
 Lemma tuple_exceed_sim of oc : crel of oc -> forall extra i, sim (tuple_exceed of i extra) (tuple_exceed oc i extra).
 Proof.
   intros Hc. induction extra as [|x r IH]; intros i; cbn [tuple_exceed]; [apply sim_ret|].
-  apply sim_bind; [apply sim_handle_error; exact Hc|apply mono_handle_error|intros; apply IH|intros; apply tuple_exceed_mono].
+  apply sim_bind; [apply sim_handle_error; exact Hc|apply mono_handle_error|apply mono_handle_error|intros; apply IH|intros; apply tuple_exceed_mono|intros; apply tuple_exceed_mono].
 Qed.
 
 Lemma parse_tuple_args_mono o depth args v : mono (parse_tuple_args tr o depth args v).
@@ -155,7 +148,9 @@ Proof.
   apply sim_bind.
   - destruct (_ && _); [apply tuple_exceed_sim; exact Hc|apply sim_ret].
   - destruct (_ && _); [apply tuple_exceed_mono|apply mono_ret].
-  - intros _. apply sim_bind; [apply tuple_items_sim; exact Hc|apply tuple_items_mono|intros; apply sim_ret|intros; apply mono_ret].
+  - destruct (_ && _); [apply tuple_exceed_mono|apply mono_ret].
+  - intros _. apply sim_bind; [apply tuple_items_sim; exact Hc|apply tuple_items_mono|apply tuple_items_mono|intros; apply sim_ret|intros; apply mono_ret|intros; apply mono_ret].
+  - intros _. apply mono_bind; [apply tuple_items_mono|intros; apply mono_ret].
   - intros _. apply mono_bind; [apply tuple_items_mono|intros; apply mono_ret].
 Qed.
 
@@ -166,7 +161,7 @@ Lemma parse_seq_args_sim of oc depth arg v : crel of oc ->
   sim (parse_seq_args tr of depth arg v) (parse_seq_args tr oc depth arg v).
 Proof.
   intros Hc. unfold parse_seq_args. destruct (items_of v); [|apply sim_lift].
-  apply sim_bind; [apply seq_items_sim; exact Hc|apply seq_items_mono|intros; apply sim_ret|intros; apply mono_ret].
+  apply sim_bind; [apply seq_items_sim; exact Hc|apply seq_items_mono|apply seq_items_mono|intros; apply sim_ret|intros; apply mono_ret|intros; apply mono_ret].
 Qed.
 
 (* generic decomposition of monotonicity goals *)
@@ -193,7 +188,7 @@ Ltac sim_step Hc IH IHm :=
     | (apply sim_handle_error; exact Hc) | apply sim_raise_error | apply sim_collect_tmp | apply sim_clear_tmp
     | (apply sim_junk_l; exact I) | (apply sim_junk_r; exact I)
     | apply IH | (apply Ksim; exact Hc)
-    | (apply sim_bind; [ | mono_auto IHm | intros | intros; mono_auto IHm ])
+    | (apply sim_bind; [ | mono_auto IHm | mono_auto IHm | intros | intros; mono_auto IHm | intros; mono_auto IHm ])
     | match goal with
       | |- sim (match enter_tr tr ?of ?d ?rt ?t ?v with _ => _ end) (match enter_tr tr ?oc ?d ?rt ?t ?v with _ => _ end) =>
           let He := fresh "He" in
@@ -210,8 +205,569 @@ Lemma map_items_sim of oc depth kt vt : crel of oc -> forall items acc,
 Proof.
   intros Hc. induction items as [|[k0 v0] rest IH]; intros acc; cbn [map_items]; [apply sim_ret|].
   rewrite (crel_keys of oc Hc), (crel_values of oc Hc).
-  pose proof (map_items_mono oc depth kt vt rest) as IHm.
+  pose proof (fun o => map_items_mono o depth kt vt rest) as IHm.
   sim_auto Hc IH IHm.
 Qed.
 
+
+Lemma parse_map_args_mono o depth args v : mono (parse_map_args tr o depth args v).
+Proof. unfold parse_map_args. pose proof (fun kt vt items => map_items_mono o depth kt vt items) as IHm. mono_auto IHm. Qed.
+Lemma parse_map_args_sim of oc depth args v : crel of oc ->
+  sim (parse_map_args tr of depth args v) (parse_map_args tr oc depth args v).
+Proof.
+  intros Hc. unfold parse_map_args. destruct args as [|kt rest]; [apply sim_lift|].
+  destruct (dict_items v); [|apply sim_lift].
+  apply sim_bind; [apply map_items_sim; exact Hc|apply map_items_mono|apply map_items_mono|intros; apply sim_ret|intros; apply mono_ret|intros; apply mono_ret].
+Qed.
+
+(* ---- validators: pure, identical in both runs ---- *)
+Lemma run_validators_mono o vals : forall v, mono (run_validators re o vals v).
+Proof. induction vals as [|[[name bound] lax] rest IH]; intros v; cbn [run_validators]; mono_auto IH. Qed.
+Lemma run_validators_sim of oc vals : crel of oc -> forall v,
+  sim (run_validators re of vals v) (run_validators re oc vals v).
+Proof.
+  intros Hc. induction vals as [|[[name bound] lax] rest IH]; intros v; cbn [run_validators]; [apply sim_ret|].
+  pose proof (fun o => run_validators_mono o rest) as IHm. sim_auto Hc IH IHm.
+Qed.
+
+(* ---- contains ---- *)
+Lemma count_contains_rel of oc depth ct : crel of oc -> forall items i n,
+  junk (count_contains tr of depth ct i items n) \/ junk (count_contains tr oc depth ct i items n) \/
+  req (count_contains tr of depth ct i items n) (count_contains tr oc depth ct i items n).
+Proof.
+  intros Hc. induction items as [|item rest IH]; intros i n; cbn [count_contains]; [right; right; reflexivity|].
+  pose proof (enter_rel of oc depth (route_idx i) ct item Hc) as He.
+  destruct (enter_tr tr of depth (route_idx i) ct item) as [ef|[rf|ef| | |]];
+  destruct (enter_tr tr oc depth (route_idx i) ct item) as [ec|[rc|ec| | |]]; cbn [erel] in He;
+    try contradiction; cbn; auto; try (destruct He as [[]|[[]|He]]; cbn in He; try contradiction); auto.
+Qed.
+
+Lemma parse_contains_mono o depth ct mn mx v : mono (parse_contains tr o depth ct mn mx v).
+Proof. unfold parse_contains. mono_auto I. Qed.
+Lemma parse_contains_sim of oc depth ct mn mx v : crel of oc ->
+  sim (parse_contains tr of depth ct mn mx v) (parse_contains tr oc depth ct mn mx v).
+Proof.
+  intros Hc. unfold parse_contains.
+  apply sim_bind; [apply sim_lift|apply mono_lift|apply mono_lift| | |]; try (intros; mono_auto I).
+  intros items.
+  apply sim_bind; [apply sim_lift_rel; apply count_contains_rel; exact Hc|apply mono_lift|apply mono_lift| | |]; try (intros; mono_auto I).
+  intros n. sim_auto Hc I I.
+Qed.
+
+(* ---- Rule.parse ---- *)
+Lemma rule_parse_mono o depth origin args ell vals ct mn mx v :
+  mono (rule_parse re tr o depth origin args ell vals ct mn mx v).
+Proof.
+  unfold rule_parse. apply mono_bind.
+  - destruct origin; [|apply mono_ret]. eapply mono_ext; [apply mcatch_mtry|].
+    apply mono_mtry; [apply Kmono|intros; apply mono_ret|intros; mono_auto I].
+  - intros v1.
+    assert (Hm : mono
+      (do v2 <- match args_parser_of origin args ell with
+                | APSeq => match args with
+                           | [] => ret v1
+                           | arg :: _ => do r <- parse_seq_args tr o depth arg v1;
+                                         lift (rebuild_origin match origin with Some ot => base_prim 8 ot | None => None end r)
+                           end
+                | APTuple => parse_tuple_args tr o depth args v1
+                | APMap => parse_map_args tr o depth args v1
+                | APNone => ret v1
+                end;
+       do v3 <- (if o_ignore_constraints o then ret v2
+                 else do w <- run_validators re o vals v2;
+                      match ct with Some ct0 => parse_contains tr o depth ct0 mn mx w | None => ret w end);
+       do _ <- raise_error; ret v3)).
+    { apply mono_bind.
+      - destruct (args_parser_of origin args ell); try apply mono_ret.
+        + destruct args; [apply mono_ret|]. apply mono_bind; [apply parse_seq_args_mono|intros; apply mono_lift].
+        + apply parse_tuple_args_mono.
+        + apply parse_map_args_mono.
+      - intros v2. apply mono_bind; [|intros; mono_auto I].
+        destruct (o_ignore_constraints o); [apply mono_ret|].
+        apply mono_bind; [apply run_validators_mono|intros; destruct ct; [apply parse_contains_mono|apply mono_ret]]. }
+    destruct origin; [destruct v1|]; try exact Hm. apply mono_ret.
+Qed.
+
+Lemma rule_parse_sim of oc depth origin args ell vals ct mn mx v : crel of oc ->
+  sim (rule_parse re tr of depth origin args ell vals ct mn mx v)
+      (rule_parse re tr oc depth origin args ell vals ct mn mx v).
+Proof.
+  intros Hc. unfold rule_parse.
+  assert (Hic : o_ignore_constraints of = o_ignore_constraints oc) by (unfold crel in Hc; decompose [and] Hc; assumption).
+  apply sim_bind.
+  - destruct origin as [ot|]; [|apply sim_ret].
+    eapply sim_ext; [apply mcatch_mtry|apply mcatch_mtry|].
+    apply sim_mtry; try apply Kmono; try (intros; apply sim_ret); try (intros; apply mono_ret); try (apply Ksim; exact Hc);
+      intros; try (mono_auto I).
+    apply sim_bind; [apply sim_handle_error; exact Hc|apply mono_handle_error|apply mono_handle_error|intros; apply sim_ret|intros; apply mono_ret|intros; apply mono_ret].
+  - destruct origin; [|apply mono_ret]. eapply mono_ext; [apply mcatch_mtry|].
+    apply mono_mtry; [apply Kmono|intros; apply mono_ret|intros; mono_auto I].
+  - destruct origin; [|apply mono_ret]. eapply mono_ext; [apply mcatch_mtry|].
+    apply mono_mtry; [apply Kmono|intros; apply mono_ret|intros; mono_auto I].
+  - intros v1.
+    assert (Hm : sim
+      (do v2 <- match args_parser_of origin args ell with
+                | APSeq => match args with
+                           | [] => ret v1
+                           | arg :: _ => do r <- parse_seq_args tr of depth arg v1;
+                                         lift (rebuild_origin match origin with Some ot => base_prim 8 ot | None => None end r)
+                           end
+                | APTuple => parse_tuple_args tr of depth args v1
+                | APMap => parse_map_args tr of depth args v1
+                | APNone => ret v1
+                end;
+       do v3 <- (if o_ignore_constraints of then ret v2
+                 else do w <- run_validators re of vals v2;
+                      match ct with Some ct0 => parse_contains tr of depth ct0 mn mx w | None => ret w end);
+       do _ <- raise_error; ret v3)
+      (do v2 <- match args_parser_of origin args ell with
+                | APSeq => match args with
+                           | [] => ret v1
+                           | arg :: _ => do r <- parse_seq_args tr oc depth arg v1;
+                                         lift (rebuild_origin match origin with Some ot => base_prim 8 ot | None => None end r)
+                           end
+                | APTuple => parse_tuple_args tr oc depth args v1
+                | APMap => parse_map_args tr oc depth args v1
+                | APNone => ret v1
+                end;
+       do v3 <- (if o_ignore_constraints oc then ret v2
+                 else do w <- run_validators re oc vals v2;
+                      match ct with Some ct0 => parse_contains tr oc depth ct0 mn mx w | None => ret w end);
+       do _ <- raise_error; ret v3)).
+    { rewrite Hic. apply sim_bind.
+      - destruct (args_parser_of origin args ell); try apply sim_ret.
+        + destruct args; [apply sim_ret|].
+          apply sim_bind; [apply parse_seq_args_sim; exact Hc|apply parse_seq_args_mono|apply parse_seq_args_mono|intros; apply sim_lift|intros; apply mono_lift|intros; apply mono_lift].
+        + apply parse_tuple_args_sim; exact Hc.
+        + apply parse_map_args_sim; exact Hc.
+      - destruct (args_parser_of origin args ell); try apply mono_ret;
+          [destruct args; [apply mono_ret|apply mono_bind; [apply parse_seq_args_mono|intros; apply mono_lift]]
+          |apply parse_tuple_args_mono|apply parse_map_args_mono].
+      - destruct (args_parser_of origin args ell); try apply mono_ret;
+          [destruct args; [apply mono_ret|apply mono_bind; [apply parse_seq_args_mono|intros; apply mono_lift]]
+          |apply parse_tuple_args_mono|apply parse_map_args_mono].
+      - intros v2. apply sim_bind.
+        + destruct (o_ignore_constraints oc); [apply sim_ret|].
+          apply sim_bind; [apply run_validators_sim; exact Hc|apply run_validators_mono|apply run_validators_mono| | |];
+            intros; destruct ct; try apply sim_ret; try apply mono_ret; try apply parse_contains_mono.
+          apply parse_contains_sim; exact Hc.
+        + destruct (o_ignore_constraints oc); [apply mono_ret|].
+          apply mono_bind; [apply run_validators_mono|intros; destruct ct; [apply parse_contains_mono|apply mono_ret]].
+        + destruct (o_ignore_constraints oc); [apply mono_ret|].
+          apply mono_bind; [apply run_validators_mono|intros; destruct ct; [apply parse_contains_mono|apply mono_ret]].
+        + intros v3. sim_auto Hc I I.
+        + intros; mono_auto I.
+        + intros; mono_auto I.
+      - intros v2. apply mono_bind; [|intros; mono_auto I].
+        destruct (o_ignore_constraints oc); [apply mono_ret|].
+        apply mono_bind; [apply run_validators_mono|intros; destruct ct; [apply parse_contains_mono|apply mono_ret]].
+      - intros v2. apply mono_bind; [|intros; mono_auto I].
+        destruct (o_ignore_constraints oc); [apply mono_ret|].
+        apply mono_bind; [apply run_validators_mono|intros; destruct ct; [apply parse_contains_mono|apply mono_ret]]. }
+    destruct origin; [destruct v1|]; try exact Hm. apply sim_ret.
+  - intros v1. pose proof (rule_parse_mono of depth origin args ell vals ct mn mx v) as Hx.
+    (* the continuation alone is monotone: reuse the decomposition of rule_parse_mono *)
+    clear Hx. destruct origin; [destruct v1|]; try apply mono_ret;
+    (apply mono_bind;
+     [destruct (args_parser_of _ args ell); try apply mono_ret;
+        [destruct args; [apply mono_ret|apply mono_bind; [apply parse_seq_args_mono|intros; apply mono_lift]]
+        |apply parse_tuple_args_mono|apply parse_map_args_mono]
+     |intros v2; apply mono_bind; [|intros; mono_auto I];
+      destruct (o_ignore_constraints of); [apply mono_ret|];
+      apply mono_bind; [apply run_validators_mono|intros; destruct ct; [apply parse_contains_mono|apply mono_ret]]]).
+  - intros v1. destruct origin; [destruct v1|]; try apply mono_ret;
+    (apply mono_bind;
+     [destruct (args_parser_of _ args ell); try apply mono_ret;
+        [destruct args; [apply mono_ret|apply mono_bind; [apply parse_seq_args_mono|intros; apply mono_lift]]
+        |apply parse_tuple_args_mono|apply parse_map_args_mono]
+     |intros v2; apply mono_bind; [|intros; mono_auto I];
+      destruct (o_ignore_constraints oc); [apply mono_ret|];
+      apply mono_bind; [apply run_validators_mono|intros; destruct ct; [apply parse_contains_mono|apply mono_ret]]]).
+Qed.
+
+
+(* ---- logical types ---- *)
+Lemma or_stage_mono o depth : forall args v, mono (or_stage tr o depth args v).
+Proof. induction args as [|con rest IH]; intros v; cbn [or_stage]; mono_auto IH. Qed.
+Lemma or_stage_sim of oc depth : crel of oc -> forall args v, sim (or_stage tr of depth args v) (or_stage tr oc depth args v).
+Proof.
+  intros Hc. induction args as [|con rest IH]; intros v; cbn [or_stage]; [apply sim_ret|].
+  pose proof (fun o => or_stage_mono o depth rest) as IHm. sim_auto Hc IH IHm.
+Qed.
+(* a union stage never touches the recorded errors *)
+Lemma or_stage_errors o depth : forall args v s, nerr (fst (or_stage tr o depth args v s)) = nerr s.
+Proof.
+  induction args as [|con rest IH]; intros v s; cbn [or_stage]; [reflexivity|].
+  destruct (enter_tr tr o depth true con v) as [e|[r|e| | |]]; try reflexivity.
+  unfold mbind, collect_tmp_error. rewrite IH. reflexivity.
+Qed.
+
+Lemma and_loop_eq o depth con rest v s :
+  and_loop tr o depth (con :: rest) v s =
+  mtry (tr o depth con v) (fun v' => and_loop tr o depth rest v')
+       (fun e => do _ <- handle_error o (as_parse_error e) false; ret v) s.
+Proof.
+  cbn [and_loop]. unfold mtry. destruct (tr o depth con v s) as [s1 [v'|e| | |]]; reflexivity.
+Qed.
+Lemma and_loop_mono o depth : forall args v, mono (and_loop tr o depth args v).
+Proof.
+  induction args as [|con rest IH]; intros v; [cbn; apply mono_ret|].
+  eapply mono_ext; [intros; apply and_loop_eq|]. apply mono_mtry; [apply Kmono|intros; apply IH|intros; mono_auto I].
+Qed.
+Lemma and_loop_sim of oc depth : crel of oc -> forall args v, sim (and_loop tr of depth args v) (and_loop tr oc depth args v).
+Proof.
+  intros Hc. induction args as [|con rest IH]; intros v; [cbn; apply sim_ret|].
+  eapply sim_ext; [intros; apply and_loop_eq|intros; apply and_loop_eq|].
+  apply sim_mtry; try apply Kmono; try (apply Ksim; exact Hc); try (intros; apply IH); try (intros; apply and_loop_mono);
+    try (intros; mono_auto I).
+  intros x x'. apply sim_bind; [apply sim_handle_error; exact Hc|apply mono_handle_error|apply mono_handle_error|intros; apply sim_ret|intros; apply mono_ret|intros; apply mono_ret].
+Qed.
+
+Definition xor_again (o : options) (depth : Z) (rest : list ty) (v res : pyval) : M (pyval * bool) :=
+  mtry (handle_error o (parse_err KOneOf) false) (fun _ => ret (res, false))
+       (fun e => do _ <- collect_tmp_error e; xor_loop tr o depth rest v res true).
+Lemma xor_again_eq o depth rest v res s :
+  (let '(s1, hr) := handle_error o (parse_err KOneOf) false s in
+   match hr with
+   | Ok _ => (s1, Ok (res, false))
+   | Raise e => let '(s2, _) := collect_tmp_error e s1 in xor_loop tr o depth rest v res true s2
+   | Diverge => (s1, Diverge) | OutOfFuel => (s1, OutOfFuel) | Unmodelled => (s1, Unmodelled)
+   end) = xor_again o depth rest v res s.
+Proof.
+  unfold xor_again, mtry. destruct (handle_error o (parse_err KOneOf) false s) as [s1 [[]|e| | |]]; try reflexivity.
+Qed.
+
+Lemma xor_loop_mono o depth : forall args v res xor, mono (xor_loop tr o depth args v res xor).
+Proof.
+  induction args as [|con rest IH]; intros v res xor; cbn [xor_loop]; [apply mono_ret|].
+  destruct (enter_tr tr o depth true con v) as [e|[r|e| | |]]; try apply mono_lift.
+  - destruct (negb xor); [apply IH|].
+    eapply mono_ext; [intros; apply xor_again_eq|]. unfold xor_again.
+    apply mono_mtry; [apply mono_handle_error|intros; apply mono_ret|intros; mono_auto IH].
+  - mono_auto IH.
+Qed.
+
+Lemma xor_loop_sim of oc depth : crel of oc -> forall args v res xor,
+  sim (xor_loop tr of depth args v res xor) (xor_loop tr oc depth args v res xor).
+Proof.
+  intros Hc. induction args as [|con rest IH]; intros v res xor; cbn [xor_loop]; [apply sim_ret|].
+  pose proof (enter_rel of oc depth true con v Hc) as He.
+  pose proof (fun o => xor_loop_mono o depth rest) as IHm.
+  destruct (enter_tr tr of depth true con v) as [ef|[rf|ef| | |]];
+  destruct (enter_tr tr oc depth true con v) as [ec|[rc|ec| | |]]; enter_cases He.
+  - subst rc. destruct (negb xor); [apply IH|].
+    eapply sim_ext; [intros; apply xor_again_eq|intros; apply xor_again_eq|]. unfold xor_again.
+    apply sim_mtry; try apply mono_handle_error; try (apply sim_handle_error; exact Hc);
+      try (intros; apply sim_ret); try (intros; apply mono_ret); try (intros; mono_auto IHm).
+    intros x x'. apply sim_bind; [apply sim_collect_tmp|apply mono_collect_tmp|apply mono_collect_tmp|intros; apply IH|intros; apply IHm|intros; apply IHm].
+  - apply sim_bind; [apply sim_collect_tmp|apply mono_collect_tmp|apply mono_collect_tmp|intros; apply IH|intros; apply IHm|intros; apply IHm].
+Qed.
+
+Definition not_accepted (o : options) (v : pyval) : M pyval :=
+  mtry (handle_error o (parse_err KNegate) false) (fun _ => do _ <- raise_error; ret v) (fun _ => do _ <- raise_error; ret v).
+Lemma not_accepted_eq o v s :
+  (let '(s1, _) := handle_error o (parse_err KNegate) false s in (do _ <- raise_error; ret v) s1) = not_accepted o v s.
+Proof.
+  unfold not_accepted, mtry. unfold handle_error.
+  destruct (false || negb (o_collect_errors o)); [reflexivity|].
+  destruct (o_max_errors o) as [m|]; [destruct (m <=? _)|]; reflexivity.
+Qed.
+
+Lemma logical_parse_mono o depth op args v : mono (logical_parse tr o depth op args v).
+Proof.
+  destruct op; cbn [logical_parse].
+  - apply mono_bind; [apply and_loop_mono|intros; mono_auto I].
+  - pose proof (fun o' => or_stage_mono o' depth args v) as Hs. mono_auto Hs.
+  - destruct (existsb _ args); [apply mono_ret|].
+    apply mono_bind; [apply xor_loop_mono|]. intros [v' xor]. mono_auto I.
+  - destruct args as [|con rest]; [mono_auto I|].
+    destruct (enter_tr tr o depth true con v) as [e|[r|e| | |]]; try apply mono_lift; try (mono_auto I).
+    eapply mono_ext; [intros; apply not_accepted_eq|]. unfold not_accepted.
+    apply mono_mtry; [apply mono_handle_error|intros; mono_auto I|intros; mono_auto I].
+Qed.
+
+Lemma crel_flags of oc : crel of oc ->
+  o_no_data_loss of = o_no_data_loss oc /\ o_no_explicit_cast of = o_no_explicit_cast oc.
+Proof. unfold crel. intros H. decompose [and] H. auto. Qed.
+
+Lemma logical_parse_sim of oc depth op args v : crel of oc ->
+  sim (logical_parse tr of depth op args v) (logical_parse tr oc depth op args v).
+Proof.
+  intros Hc. destruct op; cbn [logical_parse].
+  - apply sim_bind; [apply and_loop_sim; exact Hc|apply and_loop_mono|apply and_loop_mono| | |]; try (intros; mono_auto I).
+    intros w. sim_auto Hc I I.
+  - destruct (crel_flags of oc Hc) as [-> ->].
+    destruct (existsb _ args); [apply sim_ret|].
+    pose proof (fun o' => or_stage_mono o' depth args v) as Hs.
+    apply sim_bind.
+    + destruct (_ || _); [apply or_stage_sim; apply crel_with_flags; exact Hc|apply sim_ret].
+    + destruct (_ || _); mono_auto Hs.
+    + destruct (_ || _); mono_auto Hs.
+    + intros [r|]; [apply sim_ret|].
+      apply sim_bind.
+      * destruct (_ && _); [apply or_stage_sim; apply crel_with_flags; exact Hc|apply sim_ret].
+      * destruct (_ && _); mono_auto Hs.
+      * destruct (_ && _); mono_auto Hs.
+      * intros [r|]; [apply sim_ret|].
+        apply sim_bind; [apply or_stage_sim; exact Hc|mono_auto Hs|mono_auto Hs| | |].
+        -- intros [r|]; [apply sim_ret|]. sim_auto Hc I I.
+        -- intros a. mono_auto Hs.
+        -- intros a. mono_auto Hs.
+      * intros a. mono_auto Hs.
+      * intros a. mono_auto Hs.
+    + intros a. mono_auto Hs.
+    + intros a. mono_auto Hs.
+  - destruct (existsb _ args); [apply sim_ret|].
+    apply sim_bind; [apply xor_loop_sim; exact Hc|apply xor_loop_mono|apply xor_loop_mono| | |].
+    + intros [v' xor]. sim_auto Hc I I.
+    + intros [v' xor]. mono_auto I.
+    + intros [v' xor]. mono_auto I.
+  - destruct args as [|con rest]; [sim_auto Hc I I|].
+    pose proof (enter_rel of oc depth true con v Hc) as He.
+    destruct (enter_tr tr of depth true con v) as [ef|[rf|ef| | |]];
+    destruct (enter_tr tr oc depth true con v) as [ec|[rc|ec| | |]]; enter_cases He.
+    + eapply sim_ext; [intros; apply not_accepted_eq|intros; apply not_accepted_eq|]. unfold not_accepted.
+      apply sim_mtry; try apply mono_handle_error; try (apply sim_handle_error; exact Hc); intros; try (mono_auto I); sim_auto Hc I I.
+    + sim_auto Hc I I.
+Qed.
+
+
+(* ---- a successful parse leaves the recorded errors as they were ---- *)
+Lemma nerr_zero s : e_errors s = [] -> nerr s = 0%nat.
+Proof. unfold nerr. intros ->. reflexivity. Qed.
+
+Lemma ends_with_raise_error {A} (m : M A) (x : A) s s' w :
+  (do _ <- m; do _ <- raise_error; ret x) s = (s', Ok w) -> nerr s' = 0%nat.
+Proof.
+  intros H. apply mbind_ok in H. destruct H as (s1 & a & _ & H).
+  apply mbind_ok in H. destruct H as (s2 & [] & Hr & H). injection H as <- _.
+  apply raise_error_ok in Hr. destruct Hr as (-> & He & _). apply nerr_zero. exact He.
+Qed.
+
+Lemma clean_of_mono {A} (m : M A) s s' w : mono m -> m s = (s', Ok w) -> nerr s' = 0%nat -> nerr s' = nerr s.
+Proof. intros Hm H Hz. specialize (Hm s). rewrite H in Hm. cbn [fst] in Hm. lia. Qed.
+
+Lemma rule_parse_clean o depth origin args ell vals ct mn mx v s s' w :
+  rule_parse re tr o depth origin args ell vals ct mn mx v s = (s', Ok w) -> nerr s' = nerr s.
+Proof.
+  intros H. pose proof H as H0. unfold rule_parse in H.
+  apply mbind_ok in H. destruct H as (s1 & v1 & Ho & H).
+  assert (Hs1 : nerr s1 = nerr s).
+  { destruct origin as [ot|]; [|injection Ho as <- _; reflexivity].
+    unfold mcatch in Ho. destruct (tr o depth ot v s) as [s0 [a|e| | |]] eqn:Et; try discriminate Ho.
+    all: try (injection Ho as <- _; eapply Kclean; exact Et).
+    all: try (unfold mbind, handle_error in Ho; cbn [orb] in Ho; discriminate Ho). }
+  assert (Hlate : forall m : M pyval,
+            (do v2 <- m; do v3 <- (if o_ignore_constraints o then ret v2
+                                    else do w0 <- run_validators re o vals v2;
+                                         match ct with Some c => parse_contains tr o depth c mn mx w0 | None => ret w0 end);
+             do _ <- raise_error; ret v3) s1 = (s', Ok w) -> nerr s' = 0%nat).
+  { intros m Hm. apply mbind_ok in Hm. destruct Hm as (s2 & v2 & _ & Hm).
+    apply mbind_ok in Hm. destruct Hm as (s3 & v3 & _ & Hm).
+    apply mbind_ok in Hm. destruct Hm as (s4 & [] & Hr & Hm). injection Hm as <- _.
+    apply raise_error_ok in Hr. destruct Hr as (-> & He & _). apply nerr_zero. exact He. }
+  destruct origin as [ot|]; [destruct v1|];
+    try (eapply clean_of_mono; [apply rule_parse_mono|exact H0|eapply Hlate; exact H]).
+  injection H as <- _. exact Hs1.
+Qed.
+
+Lemma logical_parse_clean o depth op args v s s' w :
+  logical_parse tr o depth op args v s = (s', Ok w) -> nerr s' = nerr s.
+Proof.
+  intros H. pose proof H as H0. destruct op; cbn [logical_parse] in H.
+  - eapply clean_of_mono; [apply logical_parse_mono|exact H0|].
+    apply mbind_ok in H. destruct H as (s1 & w0 & _ & H). apply mbind_ok in H. destruct H as (s2 & [] & Hr & H).
+    injection H as <- _. apply raise_error_ok in Hr. destruct Hr as (-> & He & _). apply nerr_zero; exact He.
+  - destruct (existsb _ args); [injection H as <- _; reflexivity|].
+    apply mbind_ok in H. destruct H as (s1 & r1 & H1 & H).
+    assert (E1 : nerr s1 = nerr s).
+    { destruct (_ || _); [|injection H1 as <- _; reflexivity].
+      pose proof (or_stage_errors (with_flags o (Some true) (Some true)) depth args v s) as Hx. rewrite H1 in Hx. exact Hx. }
+    destruct r1 as [r|]; [injection H as <- _; exact E1|].
+    apply mbind_ok in H. destruct H as (s2 & r2 & H2 & H).
+    assert (E2 : nerr s2 = nerr s1).
+    { destruct (_ && _); [|injection H2 as <- _; reflexivity].
+      pose proof (or_stage_errors (with_flags o (Some true) None) depth args v s1) as Hx. rewrite H2 in Hx. exact Hx. }
+    destruct r2 as [r|]; [injection H as <- _; lia|].
+    apply mbind_ok in H. destruct H as (s3 & r3 & H3 & H).
+    assert (E3 : nerr s3 = nerr s2).
+    { pose proof (or_stage_errors o depth args v s2) as Hx. rewrite H3 in Hx. exact Hx. }
+    destruct r3 as [r|]; [injection H as <- _; lia|].
+    apply mbind_ok in H. destruct H as (s4 & [] & Hr & H). injection H as <- _.
+    apply raise_error_state in Hr. subst. lia.
+  - destruct (existsb _ args); [injection H as <- _; reflexivity|].
+    eapply clean_of_mono; [apply logical_parse_mono|exact H0|].
+    apply mbind_ok in H. destruct H as (s1 & [v' xor] & _ & H).
+    apply mbind_ok in H. destruct H as (s2 & [] & _ & H).
+    apply mbind_ok in H. destruct H as (s3 & [] & Hr & H). injection H as <- _.
+    apply raise_error_ok in Hr. destruct Hr as (-> & He & _). apply nerr_zero; exact He.
+  - eapply clean_of_mono; [apply logical_parse_mono|exact H0|].
+    destruct args as [|con rest].
+    + apply mbind_ok in H. destruct H as (s1 & [] & Hr & H). injection H as <- _.
+      apply raise_error_ok in Hr. destruct Hr as (-> & He & _). apply nerr_zero; exact He.
+    + destruct (enter_tr tr o depth true con v) as [e|[r|e| | |]]; try discriminate H.
+      * destruct (handle_error o (parse_err KNegate) false s) as [s1 r1].
+        apply mbind_ok in H. destruct H as (s2 & [] & Hr & H). injection H as <- _.
+        apply raise_error_ok in Hr. destruct Hr as (-> & He & _). apply nerr_zero; exact He.
+      * apply mbind_ok in H. destruct H as (s2 & [] & Hr & H). injection H as <- _.
+        apply raise_error_ok in Hr. destruct Hr as (-> & He & _). apply nerr_zero; exact He.
+Qed.
+
+(* nested data classes are parsed with their own options: the two runs do the very same thing *)
+Lemma transform_dataclass_same of oc c depth v : crel of oc ->
+  transform_dataclass D tr c of depth v = transform_dataclass D tr c oc depth v.
+Proof.
+  intros Hc. unfold transform_dataclass. destruct (D c) as [C|]; [|reflexivity].
+  destruct (crel_flags of oc Hc) as [E1 E2]. rewrite E1, E2.
+  assert (Hn : forall C0, nested_options C0 of = nested_options C0 oc).
+  { intros C0. unfold nested_options. unfold crel in Hc. decompose [and] Hc.
+    repeat match goal with Ho : o_override ?x = false |- context [o_override ?x] => rewrite Ho end.
+    rewrite !andb_false_r. reflexivity. }
+  assert (Hi : forall d, init_dataclass tr c C of depth d = init_dataclass tr c C oc depth d).
+  { intros d. unfold init_dataclass. rewrite Hn. reflexivity. }
+  match goal with |- bind ?x _ = bind ?x _ => destruct x as [d| | | |]; cbn [bind]; try reflexivity end.
+  destruct d; try apply Hi. destruct (Nat.eqb c c0); [reflexivity|apply Hi].
+Qed.
+
+(* ---- one unfolding of the knot: all three invariants ---- *)
+Lemma transform_step_mono o depth t v : mono (transform_step re D tr o depth t v).
+Proof.
+  destruct t; cbn [transform_step].
+  - mono_auto I.
+  - apply mono_lift.
+  - apply rule_parse_mono.
+  - apply logical_parse_mono.
+  - destruct v; try apply mono_lift. destruct (Nat.eqb c c0); [apply mono_ret|apply mono_lift].
+Qed.
+
+Lemma transform_step_clean o depth t v s s' w :
+  transform_step re D tr o depth t v s = (s', Ok w) -> nerr s' = nerr s.
+Proof.
+  destruct t; cbn [transform_step]; intros H.
+  - apply mbind_ok in H. destruct H as (s1 & [] & Hr & H). injection H as <- _. apply raise_error_state in Hr. subst. reflexivity.
+  - injection H as <- _. reflexivity.
+  - eapply rule_parse_clean; exact H.
+  - eapply logical_parse_clean; exact H.
+  - destruct v; try (injection H as <- _; reflexivity).
+    destruct (Nat.eqb c c0); injection H as <- _; reflexivity.
+Qed.
+
+Lemma transform_step_sim of oc depth t v : crel of oc ->
+  sim (transform_step re D tr of depth t v) (transform_step re D tr oc depth t v).
+Proof.
+  intros Hc. destruct t; cbn [transform_step].
+  - sim_auto Hc I I.
+  - destruct (crel_flags of oc Hc) as [-> ->].
+    assert (o_unresolved of = o_unresolved oc) as -> by (unfold crel in Hc; decompose [and] Hc; assumption).
+    apply sim_lift.
+  - apply rule_parse_sim; exact Hc.
+  - apply logical_parse_sim; exact Hc.
+  - rewrite (transform_dataclass_same of oc c depth v Hc).
+    destruct v; try apply sim_lift. destruct (Nat.eqb c c0); [apply sim_ret|apply sim_lift].
+Qed.
+
 End Collect.
+
+(* ---- data-class field parsing under related options ---- *)
+Section Fields.
+Variable re : string -> string -> bool.
+Variable D : decls.
+Variable tr : options -> Z -> ty -> pyval -> M pyval.
+Hypothesis Ksim : forall of oc d t v, crel of oc -> sim (tr of d t v) (tr oc d t v).
+Hypothesis Kmono : forall o d t v, mono (tr o d t v).
+Hypothesis Kclean : forall o d t v s s' w, tr o d t v s = (s', Ok w) -> nerr s' = nerr s.
+
+Ltac mono_auto' IH :=
+  repeat first
+    [ apply mono_ret | apply mono_lift | apply mono_handle_error | apply mono_raise_error
+    | apply mono_collect_tmp | apply mono_clear_tmp | apply IH | apply Kmono
+    | (apply mono_bind; [|intros])
+    | match goal with |- mono (if ?b then _ else _) => destruct b end
+    | match goal with |- mono (match ?x with _ => _ end) => destruct x end ].
+
+(* the field predicates do not read collect_errors / max_errors *)
+Lemma crel_field_preds of oc f : crel of oc ->
+  is_required f of = is_required f oc /\ is_no_input f of = is_no_input f oc /\
+  get_default f of = get_default f oc /\ get_on_error f of = get_on_error f oc.
+Proof.
+  intros Hc. unfold crel in Hc. decompose [and] Hc.
+  unfold is_required, is_no_input, get_default, get_on_error, always_no_input, flag_applies.
+  repeat match goal with H : ?p of = ?p oc |- _ => rewrite H; clear H end. auto.
+Qed.
+
+Lemma parse_value_mono o depth f v : mono (parse_value tr o depth f v).
+Proof.
+  unfold parse_value. destruct (f_type f); [|apply mono_ret].
+  destruct (enter_tr tr o depth (route_str (f_name f)) t v) as [e|[r|e| | |]]; mono_auto' I.
+Qed.
+
+Lemma parse_value_sim of oc depth f v : crel of oc -> sim (parse_value tr of depth f v) (parse_value tr oc depth f v).
+Proof.
+  intros Hc. unfold parse_value. destruct (f_type f) as [t|]; [|apply sim_ret].
+  destruct (crel_field_preds of oc f Hc) as (E1 & E2 & E3 & E4). rewrite E1, E3, E4.
+  pose proof (enter_rel tr Ksim Kclean of oc depth (route_str (f_name f)) t v Hc) as He.
+  destruct (enter_tr tr of depth (route_str (f_name f)) t v) as [ef|[rf|ef| | |]];
+  destruct (enter_tr tr oc depth (route_str (f_name f)) t v) as [ec|[rc|ec| | |]]; cbn [erel] in He;
+    try contradiction; try (apply sim_junk_l; exact I); try (apply sim_junk_r; exact I); try apply sim_raise;
+    try (destruct He as [[]|[[]|He]]; cbn in He; try contradiction).
+  - subst rc. apply sim_ret.
+  - destruct (get_on_error f oc).
+    + apply sim_bind; [apply sim_handle_error; exact Hc|apply mono_handle_error|apply mono_handle_error|intros; apply sim_ret|intros; apply mono_ret|intros; apply mono_ret].
+    + apply sim_bind; [destruct (is_required f oc); [apply sim_handle_error; exact Hc|apply sim_ret]
+                      |destruct (is_required f oc); mono_auto' I|destruct (is_required f oc); mono_auto' I
+                      |intros; apply sim_ret|intros; apply mono_ret|intros; apply mono_ret].
+    + apply sim_ret.
+Qed.
+
+End Fields.
+
+(* ---- tying the knot ---- *)
+Section Knot.
+Variable re : string -> string -> bool.
+Variable D : decls.
+
+Lemma transform_invariants fuel :
+  (forall of oc d t v, crel of oc -> sim (transform re D fuel of d t v) (transform re D fuel oc d t v)) /\
+  (forall o d t v, mono (transform re D fuel o d t v)) /\
+  (forall o d t v s s' w, transform re D fuel o d t v s = (s', Ok w) -> nerr s' = nerr s).
+Proof.
+  induction fuel as [|f (IHs & IHm & IHc)]; cbn [transform].
+  - split; [intros; apply sim_lift|]. split; [intros; apply mono_lift|]. intros; discriminate.
+  - split; [intros; apply transform_step_sim; assumption|].
+    split; [intros; apply transform_step_mono; assumption|].
+    intros; eapply transform_step_clean; eassumption.
+Qed.
+
+(* THE RESULT: the two runs of the public entry point agree on verdict and value *)
+Theorem collect_same_verdict fuel of oc t v :
+  crel of oc ->
+  let rf := type_transform re D fuel of t v in
+  let rc := type_transform re D fuel oc t v in
+  junk rf \/ junk rc \/ req rf rc.
+Proof.
+  intros Hc. unfold type_transform.
+  rewrite (depth_check_crel of oc 1 Hc).
+  destruct (depth_check oc 1); cbn [bind]; auto; try (right; right; exact I).
+  destruct (transform_invariants fuel) as (Hs & Hm & Hcl).
+  apply (fresh_rel (transform re D fuel) Hs Hcl of oc 1 t v Hc).
+Qed.
+
+End Knot.
+
+(* ---- the cap: at most max_errors errors are ever recorded before the collected error is raised ---- *)
+Lemma handle_error_cap o e s s' r m :
+  o_collect_errors o = true -> o_max_errors o = Some m -> (nerr s < Z.to_nat m)%nat -> 1 <= m ->
+  handle_error o e false s = (s', r) ->
+  (r = Ok tt /\ (nerr s' < Z.to_nat m)%nat) \/
+  (exists e', r = Raise e' /\ ex_kind e' = KCollected /\
+              List.length (ex_sub e') = (Z.to_nat m + ntmp s)%nat /\ nerr s' = Z.to_nat m).
+Proof.
+  intros Hc Hm Hlt Hm1. unfold handle_error. rewrite Hc, Hm. cbn [negb orb].
+  destruct (m <=? llen (e_errors {| e_errors := e_errors s ++ [e]; e_tmp := e_tmp s |})) eqn:E;
+    intros H; injection H as <- <-; cbn [e_errors e_tmp] in *.
+  - right. eexists. split; [reflexivity|]. split; [reflexivity|].
+    unfold collected, nerr, ntmp, llen in *. cbn [ex_sub e_errors e_tmp]. rewrite map_length, !app_length in *. cbn [List.length] in *.
+    apply Z.leb_le in E. split; lia.
+  - left. split; [reflexivity|]. unfold nerr, llen in *. cbn [e_errors]. rewrite app_length in *. cbn [List.length] in *.
+    apply Z.leb_gt in E. lia.
+Qed.
